@@ -488,3 +488,15 @@ Proof.
   intros I V E. pose proof enums_bijective as B. rewrite forallb_forall in B.
   specialize (B _ I). cbn [snd] in B. exact (roundtrip_app tb (PEnum v) t B V E).
 Qed.
+
+(* what comes back from a bit string is exactly the bits that went in: same length for every length — the decoder
+   has no notion of a class width (bitLen) to pad or cut to *)
+Theorem bitstring_exact tb l t : enc_app tb (PBits l) = Ok t ->
+  dec_app tb 8 t = Ok (PBits l) /\
+  (forall l', dec_app tb 8 t = Ok (PBits l') -> length l' = length l).
+Proof.
+  cbn [enc_app]. intros H; injection H as <-.
+  assert (D : dec_app tb 8 (app_tag 8 (enc_bits l)) = Ok (PBits l)).
+  { dec_head. rewrite bits_roundtrip. reflexivity. }
+  split; [exact D|]. intros l' E. rewrite D in E. injection E as <-. reflexivity.
+Qed.
